@@ -1,20 +1,68 @@
 (* C07 — delete() leaves no dangling reference and touches nothing else.
-   Statements only; proofs in Proofs/C07Proofs.v over Model/Kernel.v
-   (EObject.delete with its recursive part, the walk over own references and
-   inverse-reference entries, and every removal procedure it calls).
-   Proved, for every state, object, fuel and choice of recursive:
+   Statements only; proofs in Proofs/C07Proofs.v and Proofs/C07Full.v over
+   Model/Kernel.v (EObject.delete with its recursive part, the walk over own
+   references and inverse-reference entries, and every removal procedure it calls).
+
+   PROVED, for every state, object, fuel and choice of recursive:
    * delete never creates a reference: slot by slot, every object reference
-     present afterwards was present before ("touches nothing else", additive half);
+     present afterwards was present before;
    * the deleted object's own references are all empty afterwards.
+
+   PROVED, for every metamodel with involutive opposites (wf_opp), WITH OR
+   WITHOUT containment, for every operation and hence along every history of
+   fitting operations (op_fits: collection operations address many-valued
+   features) from the initial state:
+   * the inverse-bookkeeping invariant inv_ok: every single-valued or unique
+     reference without opposite that holds b is recorded in b's _inverse_rels
+     (this is what lets delete() find the holders), together with uniq_ok:
+     a unique collection holds an object at most once;
+   * decl_ok: a stored reference is a reference of its holder's class
+     (operations address applicable features, op_appl; opposite ends are
+     typed by each other's owner, wf_typed);
+   * the steps of delete() keep symmetry of opposites + shape of slots
+     (C01's invariant Inv) and, for EMF-well-formed metamodels (wf_mm), the
+     whole well-formedness WF (symmetry, shape, ownership, resources).
+
+   PROVED, containment included, for ANY state that satisfies symmetry, shape,
+   uniq_ok, inv_ok and where x's stored references are declared:
+   (a) after x.delete(recursive=False) no reference slot that is single-valued
+       or a unique collection (refslot) holds x, whoever owns it;
+   (b) every such slot of another object is EXACTLY what it was, minus x
+       (Ex: a unique collection is filtered, a single slot falls back to None);
+       ANY slot of another object (attributes and non-unique collections
+       included) that did not hold x is unchanged;
+   (c) from a WF state every deleted object has no container afterwards;
+   (3) the recursive delete is the non-recursive part run on the sequence
+       `deleted` of objects it visits; (a), (b), (c) hold for all of them: no
+       refslot holds any deleted object, every refslot of a survivor has exactly
+       lost the deleted objects, other slots of survivors that held none of them
+       are unchanged.  Every deleted object is x or a (transitive) content of x
+       in the state where delete() is called, and every direct content of x is
+       deleted.
+
+   PROVED at history level for metamodels WITHOUT containment: for every
+   history of fitting, applicable operations followed by x.delete(r): (a), (b),
+   unrelated slots unchanged, and the deleted object holds no reference.
+
    REFUTED (known finding F-C07-nonunique-duplicate-target): a non-unique
    reference without opposite that holds the deleted object twice keeps one
    occurrence — witness below, replayed on the implementation by the check.
-   PARTIAL: "no survivor holds a deleted object" for unique/single references
-   and "other slots unchanged exactly" need the inverse-bookkeeping and
-   symmetry invariants along the history; carried by the correspondence and
-   the before/after oracle of harness/props/c07.py. *)
+   Non-unique many-valued references are therefore outside refslot.
+
+   PARTIAL (what is not proved here):
+   * with containment, the history-level statements (`…_history_partial`) take
+     symmetry + shape of the reached state as a premise: that is property C01
+     for metamodels with containment, not yet a theorem along histories; every
+     other premise (inv_ok, uniq_ok, decl_ok) is established along the history;
+   * that every transitive content of x is deleted (the converse inclusion,
+     beyond direct contents) needs acyclicity of containment and enough fuel;
+   * how many occurrences a NON-unique collection loses is only bounded
+     (`cellN`: Ex applied some number of times).
+   These are carried by the correspondence and the before/after oracle of
+   harness/props/c07.py. *)
 From Coq Require Import ZArith List Bool Arith.
-From PyecoreV Require Import Lib.PyBase Lib.PyList Model.Kernel Proofs.C07Proofs.
+From PyecoreV Require Import Lib.PyBase Lib.PyList Model.Kernel Proofs.KernelFacts Proofs.WFBase
+     Proofs.C01Proofs Proofs.C01Full Proofs.C07Proofs Proofs.C07Full.
 Import ListNotations.
 
 Theorem C07_delete_never_adds_a_reference_partial :
@@ -28,6 +76,257 @@ Theorem C07_deleted_object_holds_no_reference_partial :
     ~ In (VObj b) (vals (delete_obj (S fuel) m s x r) (x, f)).
 Proof. exact delete_empties_own_references. Qed.
 Print Assumptions C07_deleted_object_holds_no_reference_partial.
+
+(* ---------- the invariants, containment included ---------- *)
+Theorem C07_inverse_bookkeeping_preserved_by_every_operation :
+  forall m, wf_opp m ->
+  forall s o, uniq_ok m s /\ inv_ok m s -> op_fits m o -> uniq_ok m (next m s o) /\ inv_ok m (next m s o).
+Proof. exact J_step. Qed.
+Print Assumptions C07_inverse_bookkeeping_preserved_by_every_operation.
+
+Theorem C07_inverse_bookkeeping_along_histories :
+  forall m, wf_opp m ->
+  forall ops, ref_defaults_none m -> Forall (op_fits m) ops ->
+  inv_ok m (fold_left (next m) ops (init_state m)).
+Proof. exact inv_ok_history. Qed.
+Print Assumptions C07_inverse_bookkeeping_along_histories.
+
+Theorem C07_unique_collections_along_histories :
+  forall m, wf_opp m ->
+  forall ops, ref_defaults_none m -> Forall (op_fits m) ops ->
+  uniq_ok m (fold_left (next m) ops (init_state m)).
+Proof. exact uniq_ok_history. Qed.
+Print Assumptions C07_unique_collections_along_histories.
+
+Theorem C07_stored_references_are_declared_along_histories :
+  forall m, wf_typed m ->
+  forall ops, ref_defaults_none m -> Forall (op_appl m) ops ->
+  decl_ok m (fold_left (next m) ops (init_state m)).
+Proof. exact decl_ok_history. Qed.
+Print Assumptions C07_stored_references_are_declared_along_histories.
+
+Theorem C07_delete_steps_keep_symmetry_and_shape :
+  forall m, wf_opp m -> forall x s k, Inv m s -> Inv m (delete_step m x s k).
+Proof. exact Inv_delete_step. Qed.
+Print Assumptions C07_delete_steps_keep_symmetry_and_shape.
+
+Theorem C07_delete_keeps_wellformedness :
+  forall m, wf_mm m -> forall fuel s x r, WF m s -> WF m (delete_obj fuel m s x r).
+Proof. exact WF_delete_obj. Qed.
+Print Assumptions C07_delete_keeps_wellformedness.
+
+(* ---------- x.delete(recursive=False) from any state satisfying the invariants ---------- *)
+Theorem C07_no_dangling_after_delete_state :
+  forall m, wf_opp m ->
+  forall fuel s x a f,
+    sym m s /\ shape m s /\ uniq_ok m s /\ inv_ok m s -> declared m x s -> refslot m f ->
+    ~ In (VObj x) (vals (delete_obj (S fuel) m s x false) (a, f)).
+Proof. exact delete_no_dangling_gen. Qed.
+Print Assumptions C07_no_dangling_after_delete_state.
+
+Theorem C07_exact_frame_after_delete_state :
+  forall m, wf_opp m ->
+  forall fuel s x a f,
+    sym m s /\ shape m s /\ uniq_ok m s /\ inv_ok m s -> declared m x s -> a <> x -> refslot m f ->
+    vals (delete_obj (S fuel) m s x false) (a, f) = Ex m x f (vals s (a, f)).
+Proof. exact delete_frame_gen. Qed.
+Print Assumptions C07_exact_frame_after_delete_state.
+
+Theorem C07_unique_collection_is_filtered_by_delete_state :
+  forall m, wf_opp m ->
+  forall fuel s x a f,
+    sym m s /\ shape m s /\ uniq_ok m s /\ inv_ok m s -> declared m x s -> a <> x ->
+    f_isref (fd m f) = true -> f_many (fd m f) = true -> f_unique (fd m f) = true ->
+    vals (delete_obj (S fuel) m s x false) (a, f) =
+    filter (fun v => negb (veqb v (VObj x))) (vals s (a, f)).
+Proof. exact delete_frame_many_gen. Qed.
+Print Assumptions C07_unique_collection_is_filtered_by_delete_state.
+
+Theorem C07_single_slot_after_delete_state :
+  forall m, wf_opp m ->
+  forall fuel s x a f,
+    sym m s /\ shape m s /\ uniq_ok m s /\ inv_ok m s -> declared m x s -> a <> x ->
+    f_isref (fd m f) = true -> f_many (fd m f) = false ->
+    vals (delete_obj (S fuel) m s x false) (a, f) =
+    if vmem (VObj x) (vals s (a, f)) then [VNone] else vals s (a, f).
+Proof. exact delete_frame_single_gen. Qed.
+Print Assumptions C07_single_slot_after_delete_state.
+
+Theorem C07_unrelated_slots_unchanged_by_delete_state :
+  forall m, wf_opp m ->
+  forall fuel s x a f,
+    sym m s -> shape m s -> a <> x -> ~ In (VObj x) (vals s (a, f)) ->
+    vals (delete_obj (S fuel) m s x false) (a, f) = vals s (a, f).
+Proof. exact delete_frame_unrelated_gen. Qed.
+Print Assumptions C07_unrelated_slots_unchanged_by_delete_state.
+
+(* ---------- the recursive delete ---------- *)
+Theorem C07_recursive_delete_is_a_sequence_of_plain_deletes :
+  forall m fuel s x r,
+    delete_obj fuel m s x r = fold_left (nonrec m) (deleted m fuel s x r) s.
+Proof. exact delete_obj_trace. Qed.
+Print Assumptions C07_recursive_delete_is_a_sequence_of_plain_deletes.
+
+Theorem C07_deleted_objects_are_in_the_subtree :
+  forall m fuel s x r d, In d (deleted m fuel s x r) -> d = x \/ desc m s x d.
+Proof. exact deleted_in_subtree. Qed.
+Print Assumptions C07_deleted_objects_are_in_the_subtree.
+
+Theorem C07_direct_contents_are_deleted :
+  forall m fu s x c, In c (econtents m s x) -> In c (deleted m (S (S fu)) s x true).
+Proof. exact children_deleted. Qed.
+Print Assumptions C07_direct_contents_are_deleted.
+
+Theorem C07_no_dangling_after_recursive_delete_state :
+  forall m, wf_opp m ->
+  forall fuel s x r d a f,
+    sym m s /\ shape m s /\ uniq_ok m s /\ inv_ok m s -> decl_ok m s ->
+    In d (deleted m fuel s x r) -> refslot m f ->
+    ~ In (VObj d) (vals (delete_obj fuel m s x r) (a, f)).
+Proof. exact delete_rec_no_dangling_gen. Qed.
+Print Assumptions C07_no_dangling_after_recursive_delete_state.
+
+Theorem C07_exact_frame_after_recursive_delete_state :
+  forall m, wf_opp m ->
+  forall fuel s x r a f,
+    sym m s /\ shape m s /\ uniq_ok m s /\ inv_ok m s -> decl_ok m s ->
+    ~ In a (deleted m fuel s x r) -> refslot m f ->
+    vals (delete_obj fuel m s x r) (a, f) =
+    fold_left (fun l d => Ex m d f l) (deleted m fuel s x r) (vals s (a, f)).
+Proof. exact delete_rec_frame_gen. Qed.
+Print Assumptions C07_exact_frame_after_recursive_delete_state.
+
+Theorem C07_unrelated_slots_unchanged_by_recursive_delete_state :
+  forall m, wf_opp m ->
+  forall fuel s x r a f,
+    sym m s -> shape m s -> ~ In a (deleted m fuel s x r) ->
+    (forall d, In d (deleted m fuel s x r) -> ~ In (VObj d) (vals s (a, f))) ->
+    vals (delete_obj fuel m s x r) (a, f) = vals s (a, f).
+Proof. exact delete_rec_frame_unrelated_gen. Qed.
+Print Assumptions C07_unrelated_slots_unchanged_by_recursive_delete_state.
+
+Theorem C07_deleted_objects_have_no_container :
+  forall m, wf_mm m ->
+  forall fuel s x r d,
+    WF m s -> uniq_ok m s -> inv_ok m s -> decl_ok m s ->
+    In d (deleted m fuel s x r) ->
+    cont (delete_obj fuel m s x r) d = None.
+Proof. exact delete_rec_uncontained. Qed.
+Print Assumptions C07_deleted_objects_have_no_container.
+
+(* ---------- histories without containment, then x.delete(r) ---------- *)
+Theorem C07_no_dangling_after_delete_nocont :
+  forall m, no_containment m -> wf_opp m -> wf_typed m -> ref_defaults_none m ->
+  forall ops, Forall (op_fits m) ops -> Forall (op_appl m) ops ->
+  forall x r a f, refslot m f ->
+    ~ In (VObj x) (vals (next m (fold_left (next m) ops (init_state m)) (ODelete x r)) (a, f)).
+Proof. exact history_delete_no_dangling. Qed.
+Print Assumptions C07_no_dangling_after_delete_nocont.
+
+Theorem C07_exact_frame_after_delete_nocont :
+  forall m, no_containment m -> wf_opp m -> wf_typed m -> ref_defaults_none m ->
+  forall ops, Forall (op_fits m) ops -> Forall (op_appl m) ops ->
+  forall x r a f, a <> x -> refslot m f ->
+    vals (next m (fold_left (next m) ops (init_state m)) (ODelete x r)) (a, f) =
+    Ex m x f (vals (fold_left (next m) ops (init_state m)) (a, f)).
+Proof. exact history_delete_frame. Qed.
+Print Assumptions C07_exact_frame_after_delete_nocont.
+
+Theorem C07_unrelated_slots_unchanged_after_delete_nocont :
+  forall m, no_containment m -> wf_opp m -> wf_typed m -> ref_defaults_none m ->
+  forall ops, Forall (op_fits m) ops -> Forall (op_appl m) ops ->
+  forall x r a f, a <> x ->
+    ~ In (VObj x) (vals (fold_left (next m) ops (init_state m)) (a, f)) ->
+    vals (next m (fold_left (next m) ops (init_state m)) (ODelete x r)) (a, f) =
+    vals (fold_left (next m) ops (init_state m)) (a, f).
+Proof. exact history_delete_frame_unrelated. Qed.
+Print Assumptions C07_unrelated_slots_unchanged_after_delete_nocont.
+
+Theorem C07_deleted_object_holds_nothing_nocont :
+  forall m, no_containment m -> wf_opp m -> wf_typed m -> ref_defaults_none m ->
+  forall ops, Forall (op_fits m) ops -> Forall (op_appl m) ops ->
+  forall x r f b, f_isref (fd m f) = true ->
+    ~ In (VObj b) (vals (next m (fold_left (next m) ops (init_state m)) (ODelete x r)) (x, f)).
+Proof. exact history_deleted_holds_nothing. Qed.
+Print Assumptions C07_deleted_object_holds_nothing_nocont.
+
+(* ---------- histories of any metamodel: C01 for the reached state is the only open premise ---------- *)
+Theorem C07_no_dangling_after_delete_history_partial :
+  forall m, wf_opp m -> wf_typed m -> ref_defaults_none m ->
+  forall ops, Forall (op_fits m) ops -> Forall (op_appl m) ops ->
+  forall x r d a f,
+    Inv m (fold_left (next m) ops (init_state m)) ->
+    In d (deleted m (S (length (ocls m))) (fold_left (next m) ops (init_state m)) x r) ->
+    refslot m f ->
+    ~ In (VObj d) (vals (next m (fold_left (next m) ops (init_state m)) (ODelete x r)) (a, f)).
+Proof. exact gen_history_delete_no_dangling. Qed.
+Print Assumptions C07_no_dangling_after_delete_history_partial.
+
+Theorem C07_exact_frame_after_delete_history_partial :
+  forall m, wf_opp m -> wf_typed m -> ref_defaults_none m ->
+  forall ops, Forall (op_fits m) ops -> Forall (op_appl m) ops ->
+  forall x r a f,
+    Inv m (fold_left (next m) ops (init_state m)) ->
+    ~ In a (deleted m (S (length (ocls m))) (fold_left (next m) ops (init_state m)) x r) ->
+    refslot m f ->
+    vals (next m (fold_left (next m) ops (init_state m)) (ODelete x r)) (a, f) =
+    fold_left (fun l d => Ex m d f l)
+      (deleted m (S (length (ocls m))) (fold_left (next m) ops (init_state m)) x r)
+      (vals (fold_left (next m) ops (init_state m)) (a, f)).
+Proof. exact gen_history_delete_frame. Qed.
+Print Assumptions C07_exact_frame_after_delete_history_partial.
+
+(* what Ex is *)
+Theorem C07_Ex_on_unique_collections :
+  forall m x f l, f_many (fd m f) = true -> nodup_objs l ->
+    Ex m x f l = filter (fun v => negb (veqb v (VObj x))) l.
+Proof. exact Ex_many_unique. Qed.
+Print Assumptions C07_Ex_on_unique_collections.
+
+Theorem C07_Ex_on_single_slots :
+  forall m x f l, f_many (fd m f) = false ->
+    Ex m x f l = if vmem (VObj x) l then [VNone] else l.
+Proof. exact Ex_single. Qed.
+Print Assumptions C07_Ex_on_single_slots.
+
+(* the premises are satisfiable: a unique many-valued reference without opposite (0), a pair
+   of opposite references (1 many-valued, 2 single-valued) and an attribute (3); objects 0, 1
+   of class 0 and 2, 3 of class 1; object 2 is referenced through 0 by two holders and
+   through the pair, then deleted *)
+Example C07_premises_satisfiable :
+  no_containment ex_c07_mm /\ wf_opp ex_c07_mm /\ wf_typed ex_c07_mm /\ ref_defaults_none ex_c07_mm /\
+  Forall (op_fits ex_c07_mm) ex_c07_ops /\ Forall (op_appl ex_c07_mm) ex_c07_ops.
+Proof. exact ex_c07_ok. Qed.
+
+Example C07_witness_full :
+  let s := fold_left (next ex_c07_mm) ex_c07_ops (init_state ex_c07_mm) in
+  let s' := next ex_c07_mm s (ODelete 2 false) in
+  (vals s (0, 0), vals s (1, 0), vals s (0, 1), vals s (2, 2), vals s (3, 2), vals s (0, 3)) =
+    ([VObj 2; VObj 3], [VObj 2], [VObj 2; VObj 3], [VObj 0], [VObj 0], [VInt 5]) /\
+  (vals s' (0, 0), vals s' (1, 0), vals s' (0, 1), vals s' (2, 2), vals s' (3, 2), vals s' (0, 3)) =
+    ([VObj 3], [], [VObj 3], [VNone], [VObj 0], [VInt 5]).
+Proof. vm_compute. split; reflexivity. Qed.
+
+(* containment: kids (0, containment, unique many) and watch (1, unique many, no opposite);
+   1 is a child of 0, 2 a child of 1; 3 watches 1 and 2; 1.delete() visits 2 then 1 *)
+Definition ex_mm_tree : mm :=
+  {| feats := [ {| f_owner := 0; f_isref := true; f_many := true; f_unique := true; f_cont := true;
+                   f_opp := None; f_type := TClass 0; f_default := VNone |};
+                {| f_owner := 0; f_isref := true; f_many := true; f_unique := true; f_cont := false;
+                   f_opp := None; f_type := TClass 0; f_default := VNone |} ];
+     conf := [(0, 0)]; ocls := [0; 0; 0; 0]; enames := []; nres := 0 |}.
+
+Example C07_witness_containment :
+  let s := fold_left (next ex_mm_tree)
+             [OAppend 0 0 (VObj 1); OAppend 1 0 (VObj 2); OAppend 3 1 (VObj 2); OAppend 3 1 (VObj 1)]
+             (init_state ex_mm_tree) in
+  let s' := next ex_mm_tree s (ODelete 1 true) in
+  deleted ex_mm_tree (S (length (ocls ex_mm_tree))) s 1 true = [2; 1] /\
+  (vals s (0, 0), vals s (1, 0), vals s (3, 1), cont s 1, cont s 2) =
+    ([VObj 1], [VObj 2], [VObj 2; VObj 1], Some (0, 0), Some (1, 0)) /\
+  (vals s' (0, 0), vals s' (1, 0), vals s' (3, 1), cont s' 1, cont s' 2) =
+    ([], [], [], None, None).
+Proof. vm_compute. repeat split; reflexivity. Qed.
 
 (* a non-unique reference without opposite (EList) holding the target twice *)
 Definition ex_mm : mm :=
